@@ -109,9 +109,7 @@ def fam_wire_faults(w: World) -> None:
     w.scenario = {'cfg': cfg, 'text': text if len(text) < 400 else text[:200] + f'...({len(text)} chars)',
                   'faults': kinds}
     w.nontrivial = bool(kinds) or info['shape'] != 'single'
-    from .c01 import max_nesting
-    if max_nesting(text) > 64:
-        w.probe('nesting_beyond_quantifier_skipped')
+    if S.outside_quantifier(w, text):
         return
     ctx = {'async': cfg['async'], 'shape': info['shape'], 'faults': kinds, 'max_batch_size': cfg['max_batch_size']}
     sut = S.ServerUnderTest(w, cfg)
@@ -141,7 +139,7 @@ def systematic_callee(tier: str) -> Iterable[List[int]]:
 FAMILIES = {'callee.faults': fam_callee_faults, 'wire.faults': fam_wire_faults}
 SYSTEMATIC = {'callee.faults': systematic_callee}
 PLAN = {
-    'quick': {'callee.faults': 6000, 'wire.faults': 8000},
+    'quick': {'callee.faults': 48000, 'wire.faults': 64000},
     'thorough': {'callee.faults': 60000, 'wire.faults': 60000},
 }
 THOROUGH_BUDGET_S = 600
